@@ -340,7 +340,7 @@ def run_history(ctx, rng):
         live = np.abs(w) > wtol * max(1.0, float(np.abs(w).max()))
         ctx.check(len(p.fit_y_) == ds.n and p.fit_y_[live].tolist() == yred[live].tolist(), "learner_not_fitted_on_labels_1_w_positive", column=repr(col),
                   fitted_y=p.fit_y_.tolist(), expected=yred.tolist(), w=w.tolist(), lam={repr(k): float(v) for k, v in lam.items()}, wit=wit)
-        ctx.check(bool(np.allclose(_norm(p.fit_w_), _norm(w), rtol=wtol, atol=1e-12)), "learner_sample_weight_not_proportional_to_abs_w",
+        ctx.check(bool(np.allclose(_norm(p.fit_w_), _norm(w), rtol=wtol, atol=1e-12 if not f32 else 1e-7)), "learner_sample_weight_not_proportional_to_abs_w",
                   column=repr(col), fitted_w=p.fit_w_.tolist(), expected_abs_w=np.abs(w).tolist(), wit=wit)
         ctx.check(np.asarray(p.fit_X_).shape[0] == ds.n and bool(np.allclose(np.asarray(p.fit_X_, float)[:, 0], ds.X[:, 0])),
                   "learner_fitted_on_different_features", column=repr(col), wit=wit)
